@@ -207,6 +207,13 @@ def report(res: RunResult, explanation: str, assumptions: list[str], out=None, w
         print(f'KNOWN-FINDING: property={prop} rule={i.rule} {i.file}:{i.line} {i.qualname}: {i.construct} '
               f'-- {k.get("id", "")} {k.get("failing_input", "")}', file=out)
 
+    # defects shown by a failing input (reported by a sub-agent, confirmed against /repo) that no rule of this property
+    # decides and that were not small enough to repair: they suppress nothing, and are printed so that the list is complete
+    for k in known:
+        if k.get('status') == 'reported' and k.get('property') == prop:
+            print(f'KNOWN-FINDING: property={prop} (shown by the input, not decided by a rule) {k.get("file", "")} {k.get("qualname", "")}: '
+                  f'{k.get("id", "")} {k.get("failing_input", "")}', file=out)
+
     replay_paths = []
     if unlisted and write_evidence:
         os.makedirs(REPLAY_DIR, exist_ok=True)
